@@ -438,3 +438,25 @@ Definition tc_less (t : tables) (a b : vkey) : bool :=
 Definition table_resolve (t : tables) (fuel : nat) (root : vkey) : res graph :=
   resolve (tc_version t) (tc_versions t) (tc_requirements t) (tc_simple t) (tc_match t) (tc_less t) fuel root.
 
+
+(* ------------------------------------------------------------------ hypotheses of the theorems, decided on a table
+   (evaluated by the harness on the recorded tables of the correspondence runs) *)
+(* every version key the table client can answer with: the finite universe that bounds a pass *)
+Definition tb_universe (t : tables) : list vkey :=
+  flat_map (fun e => match snd e with Ok v => [v_vk v] | _ => [] end) (t_vers t)
+  ++ flat_map (fun e => match snd e with Ok vs => map v_vk vs | _ => [] end) (t_lists t).
+(* an answer is a value or an error other than the model's fuel marker (never a panic) *)
+Definition res_plainb {A} (r : res A) : bool :=
+  match r with Ok _ => true | Err e => negb (e =? EFuel) | _ => false end.
+Definition tb_plain (t : tables) : bool :=
+  forallb (fun e => res_plainb (snd e)) (t_vers t) && forallb (fun e => res_plainb (snd e)) (t_lists t)
+  && forallb (fun e => res_plainb (snd e)) (t_reqs t).
+(* Version answers carry the key asked for; Versions answers the package asked for *)
+Definition tb_faithful (t : tables) : bool :=
+  forallb (fun e => match snd e with Ok v => if vkey_dec (v_vk v) (fst e) then true else false | _ => true end) (t_vers t).
+Definition tb_lists_faithful (t : tables) : bool :=
+  forallb (fun e => match snd e with
+                    | Ok vs => forallb (fun v => if pkey_dec (vk_pk (v_vk v)) (fst e) then true else false) vs
+                    | _ => true end) (t_lists t).
+(* the explicit fuel bound of C07_resolve_total for a table client *)
+Definition tb_fuel (t : tables) : nat := S (length (tb_universe t)).
